@@ -55,8 +55,10 @@ func (g *Gen) OnsStory(id string, blocks int, priceChange bool) *Scenario {
 		sale   bool
 		price  int
 		exists bool
+		benef  string // the account the name points to, when the story changed it
 	}
 	reg := map[string]*dom{}
+	quiet := map[int]string{} // height -> an account whose own requests are left out of that block
 	if priceChange {
 		// a configuration proposal that changes the price per block, passed by both validators
 		// (the vote snapshot is taken from the validators the evidence store knows as active, which it does from block 3 on)
@@ -113,6 +115,9 @@ func (g *Gen) OnsStory(id string, blocks int, priceChange bool) *Scenario {
 			stranger := g.R.Intn(4) == 0
 			if stranger {
 				actor = other(d.owner)
+				if d.benef != "" && d.benef != d.owner && g.R.Intn(2) == 0 {
+					actor = d.benef // the account the name points to acts as if it owned the name
+				}
 			}
 			switch g.R.Intn(9) {
 			case 0, 1: // put on sale / cancel
@@ -147,7 +152,17 @@ func (g *Gen) OnsStory(id string, blocks int, priceChange bool) *Scenario {
 					d.exp += paid / pb
 				}
 			case 5: // update: beneficiary, activity
-				add(h, "DOM_UPDATE", A{"owner": actor, "benef": g.pick(people), "name": []string{n, "x." + n, n}[g.R.Intn(3)], "active": g.rng(0, 1), "uri": []string{"", "http://example.org/a"}[g.R.Intn(2)]}, g.R.Intn(15) == 0)
+				nb, un := g.pick(people), []string{n, "x." + n, n}[g.R.Intn(3)]
+				add(h, "DOM_UPDATE", A{"owner": actor, "benef": nb, "name": un, "active": g.rng(0, 1), "uri": []string{"", "http://example.org/a"}[g.R.Intn(2)]}, g.R.Intn(15) == 0)
+				if !stranger && un == n {
+					d.benef = nb
+					if nb != d.owner && g.R.Intn(2) == 0 {
+						// the account the name now points to tries to keep it alive at the owner's expense
+						rh := h + g.rng(1, 2)
+						add(rh, "DOM_RENEW", A{"owner": nb, "name": n, "amt": pb*g.rng(1, 6) + 1}, false)
+						quiet[rh] = d.owner // the owner signs nothing in that block: whatever leaves its accounts left without its signature
+					}
+				}
 			case 6: // somebody pays the name
 				add(h, "DOM_SEND", A{"from": g.pick(people), "name": []string{n, "x." + n}[g.R.Intn(2)], "amt": g.rng(1, 900)}, g.R.Intn(10) == 0)
 			case 7: // delete sub-names: one, or all
@@ -178,6 +193,12 @@ func (g *Gen) OnsStory(id string, blocks int, priceChange bool) *Scenario {
 		b := SBlock{DT: int64(g.rng(500000, 1500000)), Proposer: g.pick(g.vals)}
 		for _, e := range evs {
 			if e.h == h {
+				if q, ok := quiet[h]; ok {
+					a := e.tx.Req.A
+					if a["owner"] == q || a["from"] == q || a["buyer"] == q || a["by"] == q {
+						continue
+					}
+				}
 				b.Txs = append(b.Txs, e.tx)
 			}
 		}
